@@ -31,12 +31,16 @@ class Scope(list[Any]):
     """List-like scope bindings with dict-style access by name."""
 
     owner: "NixExpression | None"
+    from_with: bool
 
     def __init__(
         self, items: Iterable[Any] = (), *, owner: "NixExpression | None" = None
     ) -> None:
         super().__init__(items)
         self.owner: "NixExpression | None" = owner
+        # True for the environment of a `with`: consulted only after every
+        # lexical scope (let, rec set, formals) failed to bind the name.
+        self.from_with: bool = False
 
     def _find_binding_index(self, key: str) -> int | None:
         from nix_manipulator.expressions.binding import Binding
